@@ -72,6 +72,10 @@ type Found struct {
 	Plan     json.RawMessage `json:"plan"`
 	Unmin    json.RawMessage `json:"unmin"`
 	MinExecs int             `json:"min_execs"`
+	// Prelude: plans that must run first, in the same process, for the violation to occur
+	// (process-wide state left behind by earlier operations). Empty in the normal case.
+	Prelude []json.RawMessage `json:"prelude,omitempty"`
+	Unconfirmed bool          `json:"unconfirmed,omitempty"`
 }
 
 type WorkerOut struct {
@@ -153,18 +157,66 @@ func Worker(e Engine, tier string, seed uint64, shard, of int, runs uint64, know
 			}
 			seenSig[v.Sig] = true
 			unmin := PlanJSON(plan)
-			minPlan, execs := Minimise(e, ClonePlan(e, plan), v.Sig, 3000)
-			detail := v.Detail
-			if r2 := e.Exec(minPlan); r2.HasSig(v.Sig) {
-				for _, v2 := range r2.Violations {
-					if v2.Sig == v.Sig {
-						detail = v2.Detail
+			fresh := func(prelude []json.RawMessage, pl json.RawMessage) bool {
+				return childReproduces(m, outPath, seed, i, v.Sig, prelude, pl)
+			}
+			if fresh(nil, unmin) {
+				minPlan, execs := Minimise(e, ClonePlan(e, plan), v.Sig, 3000)
+				detail := v.Detail
+				mj := PlanJSON(minPlan)
+				if r2 := e.Exec(minPlan); r2.HasSig(v.Sig) && fresh(nil, mj) {
+					for _, v2 := range r2.Violations {
+						if v2.Sig == v.Sig {
+							detail = v2.Detail
+						}
+					}
+				} else {
+					mj = unmin // the minimised plan does not stand alone: keep the original
+				}
+				out.Found = append(out.Found, Found{Sig: v.Sig, Detail: detail, Run: i, Plan: mj, Unmin: unmin, MinExecs: execs})
+				continue
+			}
+			// The plan alone does not fail in a fresh process: the failure depends on process-wide
+			// state left behind by earlier runs of this worker. Make the history part of the replay
+			// and minimise it (ddmin over the prelude, each trial in a fresh process).
+			var prelude []json.RawMessage
+			first := uint64(shard)
+			if n := (i - uint64(shard)) / uint64(of); n > 4000 {
+				first = i - 4000*uint64(of)
+			}
+			for j := first; j < i; j += uint64(of) {
+				prelude = append(prelude, PlanJSON(e.NewPlan(NewRand(Mix(seed, m.Property, j)), tier, j)))
+			}
+			if !fresh(prelude, unmin) {
+				out.Found = append(out.Found, Found{Sig: v.Sig, Detail: v.Detail, Run: i, Plan: unmin, Unmin: unmin, Unconfirmed: true})
+				continue
+			}
+			tstart := time.Now()
+			trials := 0
+			for chunk := (len(prelude) + 1) / 2; chunk >= 1 && time.Since(tstart) < 120*time.Second; {
+				removed := false
+				for at := 0; at < len(prelude) && time.Since(tstart) < 120*time.Second; {
+					end := at + chunk
+					if end > len(prelude) {
+						end = len(prelude)
+					}
+					cand := append(append([]json.RawMessage{}, prelude[:at]...), prelude[end:]...)
+					trials++
+					if fresh(cand, unmin) {
+						prelude = cand
+						removed = true
+					} else {
+						at = end
 					}
 				}
-			} else {
-				minPlan = plan // minimised plan is flaky: keep the original (and let replay judge)
+				if chunk == 1 && !removed {
+					break
+				}
+				if chunk > 1 {
+					chunk = (chunk + 1) / 2
+				}
 			}
-			out.Found = append(out.Found, Found{Sig: v.Sig, Detail: detail, Run: i, Plan: PlanJSON(minPlan), Unmin: unmin, MinExecs: execs})
+			out.Found = append(out.Found, Found{Sig: v.Sig, Detail: v.Detail + fmt.Sprintf("\n(needs %d earlier operation(s) in the same process; see prelude)", len(prelude)), Run: i, Plan: unmin, Unmin: unmin, MinExecs: trials, Prelude: prelude})
 		}
 		if len(out.Found) >= 6 {
 			out.Truncated = true
@@ -184,6 +236,25 @@ func Worker(e Engine, tier string, seed uint64, shard, of int, runs uint64, know
 	}
 	b, _ := json.Marshal(out)
 	return os.WriteFile(outPath, b, 0o644)
+}
+
+// childReproduces executes prelude + plan in a fresh process and reports whether sig recurs.
+func childReproduces(m Meta, outPath string, seed, run uint64, sig string, prelude []json.RawMessage, plan json.RawMessage) bool {
+	self, err := os.Executable()
+	if err != nil {
+		return false
+	}
+	rp := Replay{Property: m.Property, Engine: m.Engine, Seed: seed, Run: run, Signature: sig, Plan: plan, Prelude: prelude}
+	b, _ := json.Marshal(rp)
+	tmp := outPath + ".trial.json"
+	if err := os.WriteFile(tmp, b, 0o644); err != nil {
+		return false
+	}
+	defer os.Remove(tmp)
+	cmd := exec.Command(self, "replay", tmp)
+	cmd.Env = append(os.Environ(), "GOMAXPROCS=2")
+	outb, _ := cmd.CombinedOutput()
+	return strings.Contains(string(outb), "REPRODUCED "+sig) && !strings.Contains(string(outb), "NOT-REPRODUCED")
 }
 
 func writeHashes(path string, m map[uint64]struct{}) error {
@@ -218,6 +289,8 @@ type Replay struct {
 	Signature string          `json:"signature"`
 	Detail    string          `json:"detail"`
 	Plan      json.RawMessage `json:"plan"`
+	// Prelude plans are executed first, in order, in the same process (their results are ignored)
+	Prelude   []json.RawMessage `json:"prelude,omitempty"`
 	MinExecs  int             `json:"minimisation_execs"`
 	UnminFile string          `json:"unminimised_plan_file,omitempty"`
 }
@@ -368,7 +441,7 @@ func Check(e Engine, o CheckOpts) int {
 		path := filepath.Join(o.ReplayDir, name+".json")
 		unminPath := filepath.Join(o.ReplayDir, name+".unmin.json")
 		_ = os.WriteFile(unminPath, f.Unmin, 0o644)
-		rp := Replay{Property: m.Property, Engine: m.Engine, TreeHash: o.TreeHash, Seed: o.Seed, Run: f.Run, Signature: f.Sig, Detail: f.Detail, Plan: f.Plan, MinExecs: f.MinExecs, UnminFile: unminPath}
+		rp := Replay{Property: m.Property, Engine: m.Engine, TreeHash: o.TreeHash, Seed: o.Seed, Run: f.Run, Signature: f.Sig, Detail: f.Detail, Plan: f.Plan, Prelude: f.Prelude, MinExecs: f.MinExecs, UnminFile: unminPath}
 		b, _ := json.MarshalIndent(rp, "", " ")
 		_ = os.WriteFile(path, b, 0o644)
 		// fresh-process confirmation
@@ -482,6 +555,14 @@ func ReplayFile(e Engine, path string) int {
 	if err := json.Unmarshal(b, &rp); err != nil {
 		fmt.Fprintf(os.Stderr, "%s: %v\n", path, err)
 		return 2
+	}
+	for k, pj := range rp.Prelude {
+		pp, err := e.Decode(pj)
+		if err != nil {
+			fmt.Fprintf(os.Stderr, "%s: prelude %d: %v\n", path, k, err)
+			return 2
+		}
+		e.Exec(pp)
 	}
 	plan, err := e.Decode(rp.Plan)
 	if err != nil {
